@@ -51,7 +51,8 @@ impl GLWEBlindRetriever {
         R: GLWEInfos,
         S: GGSWInfos,
     {
-        module.cmux_tmp_bytes(res, res, selector)
+        // the accumulators are merged with cmux_assign_neg, which takes a temporary GLWE on top of what cmux needs
+        module.cmux_tmp_bytes(res, res, selector) + GLWE::<Vec<u8>>::bytes_of_from_infos(res)
     }
 
     pub fn retrieve<M, R, A, S, BE: Backend>(
